@@ -253,7 +253,8 @@ func checkC10(c c10Case, rec *Rec) *Violation {
 }
 
 var c10RCodes = []string{"NOERROR", "noerror", "NXDOMAIN", "SERVFAIL", "REFUSED", "YXDOMAIN", "BADVERS", "FOO", "", "NoError", "FORMERR", "NOTIMP", "BADSIG", "BADCOOKIE"}
-var c10Types = []string{"A", "AAAA", "CNAME", "MX", "PTR", "TXT", "HTTPS", "SVCB", "SRV", "NS", "SOA", "a", "aaaa", "NONE", "RESERVED", "ANY", "", "TYPE65", "X", "mx", "srv", "https", "Ptr", "OPT", "CAA", "none", "None", "Reserved", "reserved", "Any", "aaaaaaaaaaaaaaaaa", "AAAAAAAAAAAAAAAAAAAAAAAAAAAAAAAAAAAAAAAAAAAA", "TYPE4294967296", strings.Repeat("x", 300)}
+var c10Types = []string{"A", "AAAA", "CNAME", "MX", "PTR", "TXT", "HTTPS", "SVCB", "SRV", "NS", "SOA", "a", "aaaa", "NONE", "RESERVED", "ANY", "", "TYPE65", "X", "mx", "srv", "https", "Ptr", "OPT", "CAA", "none", "None", "Reserved", "reserved", "Any", "aaaaaaaaaaaaaaaaa", "AAAAAAAAAAAAAAAAAAAAAAAAAAAAAAAAAAAAAAAAAAAA", "TYPE4294967296", strings.Repeat("x", 300),
+	"ſrv", "httpſ", "ſvcb", "KX", "URI", "uri"} // long s and Kelvin sign: upper-case to ASCII letters
 var c10Vals = []string{"", "1.2.3.4", "::1", "::ffff:1.2.3.4", "[::1]", "1.2.3", "256.1.1.1", "host.example", "host.example.", "host.example..", "h..example.", ".", "..", "-a.b", "a_b.c",
 	"10 mail.x", "10  mail.x", "65536 mail.x", "65535 mail.x", "-1 mail.x", "10 .", "10", "0 m.x", "1e20 m.x", "1 2 3 t.x", "1 2 3 .", "1 2 65536 t.x", "65535 65535 65535 t.x",
 	"1 2 3", "1 2 3 t.x extra", "1 .", "1 . alpn=h3", "1 . alpn", "1 . a=b=c", "1 t.x ipv4hint=1.2.3.4 port=8443", "99999 .", "1 . dohpath=", "1 . dohpath=/dns-query{?dns}", "1 t.x alpn=", "1 . =x", "1 . dohpath=x",
